@@ -520,6 +520,8 @@ pub fn run_program_world(prog: &Value, out: &mut Out) -> Option<World> {
     let key = MasterKey::new();
     let mut w = World::new(&id, key.clone());
     let h = w.store.handle(0);
+    // "index_flush": n - every command writes an index file after n indexed blobs (hook; 0 / absent = the library's 50 000)
+    rustic_core::verif_hooks::set_index_flush_count(cfg.get("index_flush").and_then(Value::as_u64).unwrap_or(0) as usize);
     let copts = config_opts(&cfg);
     w.emit(out, json!({"e":"reset","id":id,"cfg":cfg,"prog":prog}));
     let init = scn::guard(|| {
